@@ -2,7 +2,11 @@
 import EdbVerif.Props.C04
 import EdbVerif.Props.C05
 import EdbVerif.Props.C06
+import EdbVerif.Props.C07
 import EdbVerif.Props.C09
+import EdbVerif.Props.C14
+import EdbVerif.Props.C15
+import EdbVerif.Props.C16
 import EdbVerif.Props.C17
 import EdbVerif.Props.C18
 import EdbVerif.Props.C19
